@@ -409,7 +409,7 @@ Definition mstep (st : xstate) (o : mop) : xstate * mout :=
   | ONewEl n => created (new_node st (VElement n))
   | ONewText s => created (new_node st (VText s))
   | ONewComment s => created (new_node st (VComment s))
-  | ONewPi n d => created (new_node st (VPI n d))
+  | ONewPi n d => created (new_node st (VPI n (match d with Some [] => None | x => x end)))   (* ProcessingInstruction::new: empty data is no data *)
   | ONewAttr n v => created (new_node st (VAttribute n v))
   | ONewNs p ns => created (new_node st (VNamespace p ns))
   | OAppend p c => m_append st p c
